@@ -47,7 +47,7 @@ Proof. exact src_from_parts_eq. Qed.
 Print Assumptions C07_source_from_parts.
 
 (* URL.navigate as it is in the source now: the body after the str/URL dispatch
-   (dest a URL object; orig_is_none = it was passed as one; dest_copy = URL(dest)) is the
+   (dest a URL object; orig_is_none = it was passed as one; dest_copy = URL(dest.to_text(full_quote=True))) is the
    model's  "absolute destination -> normalize it, else navigate_rel" ... *)
 Theorem C07_source_navigate : forall self dest orig_is_none dest_copy,
   src_navigate_core self dest orig_is_none dest_copy =
@@ -62,13 +62,7 @@ Theorem C07_source_navigate_dispatch : forall self t as_url,
   navigate self t as_url =
   match url_of_text t with
   | None => None
-  | Some dest =>
-      if as_url && is_absolute_dest dest
-      then match url_of_text (to_text dest) with
-           | Some copy => Some (src_navigate_core self dest true copy)
-           | None => None
-           end
-      else Some (src_navigate_core self dest as_url dest)
+  | Some dest => Some (src_navigate_core self dest as_url dest)
   end.
 Proof. exact navigate_is_dispatch_then_core. Qed.
 Print Assumptions C07_source_navigate_dispatch.
